@@ -133,7 +133,8 @@ def run_config(arg):
     else:
         # negotiated, power cycled, simulation parameters changed while running
         cmds += fmt + [(RCV, "POWERON"), (SND, "POWERON"), (RCV, "POWEROFF"), (SND, "POWEROFF"), (RCV, "POWERON"), (SND, "POWERON"),
-                       (SND, snd[0]), (SND, snd[1]), (RCV, toa), (RCV, ci)]
+                       (SND, snd[0]), (SND, snd[1]), (RCV, toa), (RCV, ci),
+                       (RCV, "FAKE_TOA 7"), (RCV, "FAKE_CI -3"), (RCV, "FAKE_RSSI 2"), (RCV, "FAKE_TOA -2")]
     cfgname = "v%dv%d%s" % (vs, vr, "" if not late_fmt else "/order%d" % late_fmt)
     for i, c in cmds:
         v = W.ctrl(i, c)
